@@ -47,3 +47,42 @@ def whole_files(spec, ctx, versions=None):
         if t is None:
             continue
         yield versions[(i + spec['shard']) % len(versions)], t, f
+
+
+def run_repo_suite(pid, ctx, timeout=900):
+    """thorough-tier workload: the repository's own 1987 tests with this property's contracts recording"""
+    import json
+    import subprocess
+    import tempfile
+    out = tempfile.mktemp(prefix='vmon-suite-', suffix='.json')
+    env = dict(os.environ, VMON_SUITE_PROP=pid, VMON_SUITE_OUT=out, PYTHONPATH=harness.VERIF + os.pathsep + harness.DEPS,
+               PYTHONDONTWRITEBYTECODE='1')
+    try:
+        p = subprocess.run([harness.PY, '-m', 'pytest', '-q', '-p', 'no:cacheprovider', '-p', 'vmon.pytest_plugin', '-x', '--timeout=900'],
+                           cwd=harness.REPO, env=env, stdout=subprocess.PIPE, stderr=subprocess.STDOUT, timeout=timeout)
+    except subprocess.TimeoutExpired:
+        ctx.count('suite_timeout')
+        return
+    try:
+        with open(out) as f:
+            d = json.load(f)
+        os.remove(out)
+    except Exception:
+        ctx.count('suite_result_missing')
+        return
+    for k, v in d['counters'].items():
+        ctx.counters['suite:' + k] += v
+    ctx.counters['evaluations'] += d['counters'].get('evaluations', 0)
+    for h in d['nontrivial']:
+        ctx.nontrivial.add(h)
+    for v in d['violations']:
+        v['detail'] = dict(v.get('detail') or {}, under_repo_suite=True)
+        ctx.violations.append(v)
+        ctx._vk[v['kind']] += 1
+    for k, n in d['known'].items():
+        ctx.known[k] += n
+    for k, v in d['known_ex'].items():
+        ctx.known_ex.setdefault(k, v)
+    ctx.count('repo_suite_runs')
+    if p.returncode != 0:
+        ctx.count('repo_suite_nonzero_exit')
